@@ -54,6 +54,10 @@ inductive Val where
   | text
   | str (s : String)
   | lessZ
+  /-- `text.New(label)` with the style assigned to it afterwards (`l.Style = style`) -/
+  | label (st : Option Nat)
+  /-- `center.Center{Child: child}` -/
+  | centerOf (child : Val)
   | papp (f : String) (args : List Val)
   | fld (k : String) (v : Val)
   | tup (a b : Val)
@@ -95,6 +99,8 @@ structure Ro where
   hard : List (List Cell)
   /-- `r.Child.Draw(ctx)` -/
   childDraw : Ctx → Except Panic Surface
+  /-- `center.Center{Child: text.New(label) with Style st}.Draw(ctx)` (Button) -/
+  labelDraw : Nat → Ctx → Except Panic Surface
   /-- recursive `render` calls -/
   render : Surface → Win → Screen → Except Panic Screen
   /-- calls of the receiver's other methods -/
@@ -280,7 +286,13 @@ def applyFn (R : Ro) (f : String) (args : List Val) : Except Err Val :=
   else if f = "meth:Draw" then
     (match args with
      | [.wid _, .ctx c] => (match R.childDraw c with | .ok s => .ok (.tup (.surf s) .nil) | .error p => .error (.panic p))
+     | [.centerOf (.label (some st)), .ctx c] =>
+       (match R.labelDraw st c with | .ok s => .ok (.tup (.surf s) .nil) | .error p => .error (.panic p))
      | _ => .error (.stuck "Draw"))
+  else if f = "text.New" then
+    (match args with | [.text] => .ok (.label none) | _ => .error (.stuck "text.New"))
+  else if f = "lit:center.Center" then
+    (match getFld "Child" args with | some ch => .ok (.centerOf ch) | none => .error (.stuck "Center literal"))
   else if f = "meth:Characters" then
     (match args with | [.ctx _, .strOf l] => .ok (.cells l) | _ => .error (.stuck "Characters"))
   else if f = "meth:Text" ∨ f = "meth:Line" then
@@ -371,6 +383,7 @@ def setField (v : Val) (f : String) (x : Val) : Except Err Val :=
   | .surf s, .wid _ => if f = "Widget" then .ok (.surf s) else .error (.stuck ("set Surface." ++ f))
   | .size w h, .u16 n =>
     if f = "Width" then .ok (.size n h) else if f = "Height" then .ok (.size w n) else .error (.stuck ("set Size." ++ f))
+  | .label _, .sty st => if f = "Style" then .ok (.label (some st)) else .error (.stuck ("set Text." ++ f))
   | _, _ => .error (.stuck ("set field " ++ f))
 
 /-- `lhs = v` -/
@@ -456,6 +469,7 @@ def zeroOf (ty : String) : Except Err Val :=
   if ty = "uint16" then .ok (.u16 0)
   else if ty = "int" then .ok (.int 0)
   else if ty = "vxfw.Size" ∨ ty = "Size" then .ok (.size 0 0)
+  else if ty = "vaxis.Style" then .ok (.sty 0)
   else .error (.stuck ("zero value of " ++ ty))
 
 /-- Run `f` over the items of a loop; `break` leaves it, `continue` goes on, `return` and errors propagate. -/
@@ -617,6 +631,7 @@ def run (R : Ro) (body : St) (params : List String) (args : List Val) (scr : Scr
 /-- No callee at all. -/
 def noRo : Ro :=
   { fields := fun _ => none, soft := [], wrapW := 0, hard := [], childDraw := fun _ => .error .explicit,
+    labelDraw := fun _ _ => .error .explicit,
     render := fun _ _ _ => .error .explicit, self := fun _ _ => none }
 
 end VaxisModel.Model.SurfExec
